@@ -57,7 +57,8 @@ def py_key(path_t):
     elif args[1] == "PathArguments::AngleBracketed":
         na = [a for a in args[3][1][3] if a[1] != "GenericArgument::AssocType"]
     else:
-        return None
+        # `Fn(A) -> B`: no bindings to ignore, the whole argument list (inputs and output) is part of the key
+        return (repr(segs[:-1]), ident, "paren:" + repr(args))
     return (repr(segs[:-1]), ident, repr(na))
 
 
